@@ -160,6 +160,9 @@ def _mk_operand(cf, c, P, kind, order):
         return EU.build(cf, c, P, "Jneg", order=order)
     if kind == "gen":
         return EU.build(cf, c, P, "J1", order=order, generator=True)
+    if kind == "genz":
+        # table point handed over unnormalised (Z != 1) whose very first use is this call
+        return EU.build(cf, c, P, "Jz2", order=order, generator=True)
     if kind == "legacy":
         return Point(cf, P[0], P[1], order)
     raise ValueError(kind)
@@ -180,7 +183,8 @@ def sweep_muladd(ctx, c, full_b, pmod=1, pres=0):
             brange = arange if full_b else sorted({-2, -1, 0, 1, 2, 3, L - 1, L, L + 1, 2 * L - 1, 2 * L + 1})
             combos = [("plain", "plain", None), ("plain", "plain", L), ("z2", "neg", None)]
             if Q is not None:
-                combos += [("gen", "gen", L), ("gen", "plain", L), ("plain", "legacy", None), ("plain", "gen", L)]
+                combos += [("gen", "gen", L), ("gen", "plain", L), ("plain", "legacy", None), ("plain", "gen", L),
+                           ("genz", "plain", L), ("plain", "genz", L), ("genz", "genz", L)]
             for kp, kq, order in combos:
                 for a in arange:
                     for b in brange:
@@ -221,6 +225,8 @@ def check_big(ctx, case):
             obj = -PointJacobi(cf, P[0] * z * z % p, (-P[1]) * z * z * z % p, z, n)
         elif kind == "pub-table":
             obj = PointJacobi(cf, P[0], P[1], 1, n, generator=True)
+        elif kind == "pub-table-z":
+            obj = PointJacobi(cf, P[0] * z * z % p, P[1] * z * z * z % p, z, n, generator=True)
         elif kind == "legacy":
             obj = Point(cf, P[0], P[1], n)
         else:
@@ -247,7 +253,8 @@ def check_big(ctx, case):
             elif case["qkind"] == "legacy":
                 qobj = Point(cf, Q[0], Q[1], n)
             elif case["qkind"] == "table":
-                qobj = PointJacobi(cf, Q[0], Q[1], 1, n, generator=True)
+                z2 = case["z2"] % p or 1
+                qobj = PointJacobi(cf, Q[0] * z2 * z2 % p, Q[1] * z2 * z2 * z2 % p, z2, n, generator=True)
             else:
                 z2 = case["z2"] % p or 1
                 qobj = PointJacobi(cf, Q[0] * z2 * z2 % p, Q[1] * z2 * z2 * z2 % p, z2, n)
@@ -263,7 +270,7 @@ def check_big(ctx, case):
 
 
 def st_big(names, allow_fresh):
-    objs = ["cached-gen", "shared-gen", "plain", "ordered", "neg", "pub-table", "legacy"] + (["fresh-gen"] if allow_fresh else [])
+    objs = ["cached-gen", "shared-gen", "plain", "ordered", "neg", "pub-table", "pub-table-z", "legacy"] + (["fresh-gen"] if allow_fresh else [])
 
     def mk(cname, obj, op, di, u, kk, side, z, qmode, qkind, qd, b, z2):
         n = gen.dom(cname).n
